@@ -360,8 +360,14 @@ func await(ch chan result, d time.Duration) (result, bool) {
 
 func TestCheck(t *testing.T) {
 	peer.Register()
-	r := h.Start(t, "C10")
-	defer r.Finish()
+	r0 := h.Start(t, "C10")
+	defer r0.Finish()
+	// the thorough tier repeats every case (fresh peers, fresh client, other timing) several times
+	reps := r0.Pick(1, 5)
+	if light {
+		reps = 1
+	}
+	r := &repeater{Run: r0, reps: reps}
 	r.Meta("rule", "(A) fault-scripted peers: tcp/unix servers that close, reset or fall silent before the request, mid request header, mid request body, after the request, mid response header and mid response body, or answer garbage, a 64 MiB declared length, an error-flagged frame or another call's index; websocket servers that refuse or stall the handshake, close, fall silent, send partial frames or garbage; udp peers that are silent, absent (ICMP refusal) or send garbage; http servers (for the net/http and, in processes of their own, the fasthttp client) that close or stall before/inside the response; a mock service that blocks. Each fault x ending mode {no time-out, client time-out 150 ms, context deadline 150 ms, context cancellation at 40 ms, Abort at 40 ms}. Oracle: the call returns (a call still pending 8 s after it had to end is a violation: connection loss must end it even without a time-out), it returns an error, afterwards the peer turns healthy and the same client must succeed within three attempts; after each batch Abort is called and the client-side goroutines (stack frames inside the transports' conn/Transport and core.Client) and the pending-entry count read through the verif hook must be zero. (B) forced schedules through the verif yield points {before-register, registered, enqueued, before-clean, after-clean} of the tcp/unix/ws/udp connections: a call is held at a point while Abort, connection loss or cancellation happens, then released; it must return and leave no pending entry. (C) slow and never-returning service functions under the service-side ExecuteTimeout plugin and under client time-outs, over every transport. (D) reverse calls to absent, slow and vanishing providers with time-out, cancellation and no time-out. distinct_nontrivial = distinct (part, transport, fault, mode) cells")
 	r.Meta("assumptions", []string{"time-outs of 150 ms; a call counts as hung when still pending 8 s after the event that must end it (generous wall-clock watchdog; lateness below it is recorded, not judged)", "one fault per connection"})
 	if peer.FastHTTPClient {
@@ -444,6 +450,22 @@ func TestCheck(t *testing.T) {
 	for _, kind := range []string{"mock", "tcp"} {
 		kind := kind
 		r.Case("reverse/"+kind, func(c *h.Case) { reverseCase(c, kind) })
+	}
+}
+
+// repeater registers each case reps times.
+type repeater struct {
+	*h.Run
+	reps int
+}
+
+func (rp *repeater) Case(id string, fn func(c *h.Case)) {
+	for i := 0; i < rp.reps; i++ {
+		cid := id
+		if i > 0 {
+			cid = fmt.Sprintf("%s#%d", id, i+1)
+		}
+		rp.Run.Case(cid, fn)
 	}
 }
 
@@ -583,7 +605,7 @@ func leakCase(c *h.Case, kind string) {
 	}
 	defer srv.Close()
 	client := srv.NewClient()
-	rounds := 30
+	rounds := r.Pick(30, 150)
 	if light {
 		rounds = 10
 	}
